@@ -701,6 +701,11 @@ func init() {
 				ps := s.Doc.GetPageSettings()
 				if ps != nil {
 					ps.MarginLeft = float64(r.Range(0, 50))
+					if r.Chance(1, 3) {
+						// negative top/bottom margins are legal in the format (the body text may overlap the header area) and the
+						// all-at-once entry point accepts them
+						ps.MarginTop, ps.MarginBottom = -float64(r.Range(1, 40)), -float64(r.Range(0, 30))
+					}
 					s.Doc.SetPageSettings(ps)
 				}
 			}
